@@ -9,8 +9,8 @@ From Coq Require Import List NArith String Bool Sorted Permutation.
 From Gen Require Import Tables.
 From Model Require Import Base Names Flt Matches Cd.
 From Proofs Require Import NamesFacts RangesFacts OrderIndep CdFacts.
-From Model Require Import Md.
-From Proofs Require Import MdFacts.
+From Model Require Import Md Layers.
+From Proofs Require Import MdFacts LayersFacts.
 From Gen Require Import Tables.
 Import ListNotations.
 
@@ -65,3 +65,20 @@ Print Assumptions C03_suspicious_keyword_clause_is_set_level.
 Theorem C03_suspicious_range_symmetric : forall ra rb, suspicious ra rb = suspicious rb ra.
 Proof. exact suspicious_sym. Qed.
 Print Assumptions C03_suspicious_range_symmetric.
+
+(* cd::alpha_unicode_split (Model/Layers.v; the site of defect D3): layer keys are pairwise distinct, the
+   layers together hold exactly the lower-cased alphabetic characters that have a range -- nothing lost,
+   duplicated or invented --, and the key list only ever grows at its end (order of first appearance).  The
+   model is a fold over the text in scan order and corresponds with the code on every cd-level text. *)
+Theorem C03_layers_partition :
+  forall is_alpha to_lower t,
+    NoDup (map fst (layers_of is_alpha to_lower t))
+    /\ Permutation.Permutation (List.concat (alpha_unicode_split is_alpha to_lower t)) (flat_map (contrib is_alpha to_lower) t).
+Proof. exact layers_partition. Qed.
+Print Assumptions C03_layers_partition.
+
+Theorem C03_layers_in_order_of_first_appearance :
+  forall is_alpha to_lower t1 t2,
+    exists extra, map fst (layers_of is_alpha to_lower (t1 ++ t2)%list) = (map fst (layers_of is_alpha to_lower t1) ++ extra)%list.
+Proof. exact layers_order_of_first_appearance. Qed.
+Print Assumptions C03_layers_in_order_of_first_appearance.
